@@ -5,7 +5,8 @@ EXTENDS IPNSValidate
 CONSTANT MaxT
 VARIABLE n
 mvars == <<vars, n>>
-MInit == Init /\ n = 0
+\* keys are interchangeable: library-made records of key 1 only (names 1 and 2 are both checked)
+MInit == Init /\ r.sig2 \in {SigOf(1, d) : d \in Datas} /\ n = 0
 MNext == n < MaxT /\ Tamper /\ n' = n + 1
 MSpec == MInit /\ [][MNext]_mvars
 \* library output is accepted exactly when it is fresh and has a non-negative TTL (ties to C26)
